@@ -28,7 +28,7 @@ CHECK_DEADLOCK FALSE
 def race(ctx, r, sub):
     if "WARNING: DATA RACE" in r.out:
         i = r.out.index("WARNING: DATA RACE")
-        frames = [ln.strip() for ln in r.out[i:i + 4000].splitlines() if "fabio/route." in ln or "fabio/proxy" in ln][:4]
+        frames = [ln.strip() for ln in r.out[i:i + 4000].splitlines() if "fabio/route." in ln or "fabio/proxy" in ln or "fabio/admin" in ln][:4]
         ctx.violation({"sub": sub, "race": True, "where": frames[0].split("(")[0] if frames else "?"},
                       "data race reported while serving lookups concurrently:\n" + r.out[i:i + 2500], replay={"sub": sub + "-race", "case": None})
         return True
@@ -93,6 +93,24 @@ def run(ctx):
         ctx.cover("stress", evaluations=s["rr_lookups"] + s["lookups"], traces_validated_against_impl=1,
                   samples=[{"rr_lookups": s["rr_lookups"], "ring": s["ring"], "lookups": s["lookups"], "swaps": s["swaps"], "cache_keys": s["cache_keys"]}])
         ctx.take_failures(r, "stress")
+    # observers: admin API requests on the active table concurrently with lookups (DataPlane!LinObserve)
+    for k in range(ctx.pick(1, 4)):
+        r = ctx.gotest("admin/api", ["admin/api/c06_test.go"], "^TestVerifC06Observers$", race=True, timeout=600, env={"GOMAXPROCS": [16, 4, 2, 8][k % 4]})
+        if race(ctx, r, "observers"):
+            break
+        if not ctx.need_go_ok(r, "C06 observers run"):
+            return
+        s = r.summary
+        ctx.take_failures(r, "observers")
+        v = validate(ctx, s["trace"])
+        if v is None:
+            return
+        if v.ok:
+            ctx.cover("observers", traces_validated_against_impl=1, states=v.distinct, transitions=v.generated, evaluations=s["ops"])
+        else:
+            ctx.violation({"sub": "observers", "why": v.violated}, "a recorded execution of lookups concurrent with admin API requests on the active table is not a behaviour of DataPlane (%s): the picks do not follow the ring the route had before the observers ran" % v.violated,
+                          replay={"sub": "observers", "case": None})
+            break
     ctx.cover(distinct_nontrivial=ctx.cov["traces_validated_against_impl"],
               rule="recorded concurrent runs (each a distinct schedule of 216 operations / of 20000+ lookups); non-trivial = run with at least two goroutines overlapping")
 
